@@ -326,10 +326,7 @@ var unitOriginRule string
 
 // originExceptions: functions where a point is deliberately read as the
 // vector from the world origin (reason each).
-var originExceptions = map[string]string{
-	"(*model3d.LinearConstraint).Contains": "a half-space n.x <= Max: the plane's offset from the world origin is part of Max by definition",
-	"(*model2d.LinearConstraint).Contains": "a half-space n.x <= Max: the plane's offset from the world origin is part of Max by definition",
-}
+var originExceptions = map[string]string{}
 
 func (e *unitsEngine) report(ins ssa.Instruction, msg string) {
 	if e.reported[ins] == "" {
@@ -783,7 +780,13 @@ func (e *unitsEngine) callResult(call *ssa.Call, idx int) uval {
 				b := arg(1)
 				pa, pb := a.st == uKnown && a.kind == kPoint && !a.nokind, b.st == uKnown && b.kind == kPoint && !b.nokind
 				va, vb := a.st == uKnown && a.kind == kVector, b.st == uKnown && b.kind == kVector
+				// a half-space test n.x <= Max: the plane normal carries the
+				// arbitrary scale K and the plane's offset from the world origin
+				// is part of Max by definition — not a relative coordinate
+				halfSpace := a.dimKnown() && a.d.k != 0 || b.dimKnown() && b.d.k != 0
 				switch {
+				case halfSpace:
+					e.originOK[call] = true
 				case pa && vb || pb && va:
 					e.origin[call] = "a point is projected onto a direction (Dot of a point with a vector): the coordinate is measured from the world origin, not from the shape's own origin (subtract P1/Center first)"
 				case va && vb:
